@@ -821,6 +821,34 @@ func helperVerdictImplies(fl *Flow, facts FactSet, want bool, pred func(*Flow, F
 			return
 		}
 		res := cal.Signature.Results()
+		if res.Len() == 1 && !want && types.Identical(res.At(0).Type(), types.Universe.Lookup("error").Type()) {
+			// an error-returning helper "said no": h(...) != nil
+			ck := fl.K.Key(call)
+			if !facts[Fact{"!=", minStr(ck, "nil"), maxStr(ck, "nil")}] {
+				return
+			}
+			cfl := NewFlow(fl.P, cal)
+			all, n := true, 0
+			for _, r := range returnsOf(cal) {
+				v := retValue(r, 0)
+				if !cfl.Reachable(r.Block()) || isNilConst(v) {
+					continue
+				}
+				n++
+				fs := cfl.At(r).clone()
+				if !knownNonNilError(v) {
+					vk := cfl.K.Key(v)
+					fs[Fact{"!=", minStr(vk, "nil"), maxStr(vk, "nil")}] = true
+				}
+				if !(pred(cfl, fs) || helperVerdictImplies(cfl, fs, want, pred, depth+1)) {
+					all = false
+				}
+			}
+			if all && n > 0 {
+				found = true
+			}
+			return
+		}
 		if res.Len() != 1 || !types.Identical(res.At(0).Type(), types.Typ[types.Bool]) {
 			return
 		}
